@@ -105,6 +105,20 @@ func runC12(c *Ctx) {
 				}
 			}
 		}
+		// the cursor is rewound only when the owner says so: Reset is called by AllocatorPool.Get (an allocator
+		// coming back from the pool has no live slices) and by nobody else in the package - not by TrimTo or
+		// Release, which run on allocators whose slices may still be in use
+		for _, fn := range P.SrcFuncs {
+			if !inZ(fn) {
+				continue
+			}
+			for _, ci := range callsTo(fn, "z.Allocator.Reset") {
+				if fname(fn) != "z.AllocatorPool.Get" {
+					okAll = false
+					L.Fail("R-C12-SLOW", "Reset@"+fname(fn), fname(fn)+" rewinds the bump pointer (calls Reset): slices handed out before stay in use and the next allocations overlap them", ci.Pos())
+				}
+			}
+		}
 		sort.Strings(desc)
 		if okAll {
 			L.Check(len(desc) >= 3, "R-C12-SLOW", "compIdx#writers", "writers of the bump pointer: "+strings.Join(desc, ", "), "fewer than three writers found", 0)
